@@ -110,7 +110,8 @@ func init() {
 	// ------------------------------------------------------------------ C04
 	register("C04", func(c *engine.Ctx) {
 		c.Rule = "systematic: one object with 1..3 required keys at root / nested / array element / definition position, every non-empty subset of the required keys removed, plus present-null for nullable and absent optional; systematic over the KIND of the required property (28 kinds: scalars, bounded, nullable, arrays, structs, maps by value type, bare object, enums, formats, any, allOf, anyOf; inline and through a definition) at each of those positions, present / missing; definitions with overlapping required lists shared by several allOf compositions, every single deletion at every composed position; random: structured schemas of the tree fragment (objects, arrays, primitives, enums, nullable, $defs/$ref, depth <= 3), a fully populated valid document, and every single deletion of a required key at every object position. Verdict must equal the reference. Distinct = distinct (stream, verdicts, document shape)."
-		c.Proofs([]string{"GJS.Props.C04", "GJS.Proofs.Stable"}, []string{
+		c.Proofs([]string{"GJS.Props.C04", "GJS.Props.TreeRejects", "GJS.Proofs.Stable"}, []string{
+			"GJS.Props.Tree.tree_rejects_missing_required", "GJS.Props.Tree.tree_rejects_non_object", "GJS.Props.Tree.missing_invalid",
 			"GJS.Proofs.decode_stable",
 			"GJS.Proofs.fails_not_accepted", "GJS.Props.C04.rejects_missing", "GJS.Props.C04.cert_missing_le", "GJS.Props.C04.cert_rejects_missing",
 		})
@@ -385,7 +386,8 @@ func init() {
 	// ------------------------------------------------------------------ C03
 	register("C03", func(c *engine.Ctx) {
 		c.Rule = "random structured schemas of the tree fragment; a fully populated valid document; at every typed position (single type or [T,null], reached through properties, array items and $ref) the value is replaced by a value of every other JSON type (string, integer, non-integral number, boolean, array, object) and, where null is allowed, by null; plus typed positions built by composition (allOf / anyOf over object branches typed object, [object,null] or [null,object], inline or by $ref) with wrong-typed values for the whole position and for a member; plus two documents that define Base.id with different types and compose it by the same reference text (allOf / anyOf / plain, with and without $id), every ordered pair of five types; plus one schema (typed members at the top, nested, in array items) with every property name replaced by a word of each of 14 scripts (cased and caseless), documents renamed alike, judged by the reference verdict of the ASCII spelling. Verdict must equal the reference. Distinct = distinct (position type, substituted type, verdicts)."
-		c.Proofs([]string{"GJS.Props.C03", "GJS.Proofs.Stable"}, []string{
+		c.Proofs([]string{"GJS.Props.C03", "GJS.Props.TreeRejects", "GJS.Proofs.Stable"}, []string{
+			"GJS.Props.Tree.tree_rejects_wrong_type", "GJS.Props.Tree.wrong_type_invalid",
 			"GJS.Proofs.decode_stable",
 			"GJS.Proofs.fails_not_accepted", "GJS.Props.C03.top_mismatch", "GJS.Props.C03.cert_wrong_type_le",
 			"GJS.Props.C03.cert_rejects_wrong_type", "GJS.Props.C03.null_into_pointer", "GJS.Props.C03.fraction_into_int_fails",
